@@ -8,15 +8,23 @@ from vf.core import D, SECTOR, T, Z, Layer, PatternGen, SparseFile
 
 def footer(size: int, data_offset: int, disk_type: int, uid: bytes, legacy: bool = False, orig_size=None,
            timestamp: int = 0, creator_app: bytes = b"vf  ", creator_os: bytes = b"Wi2k", geometry: int = 0,
-           temporary: bool = False) -> bytes:
+           temporary: bool = False, info_rng=None) -> bytes:
     # features: bit 1 is reserved and always set by writers of the 512-byte footer, bit 0 marks a temporary disk
     features = 0 if legacy else (3 if temporary else 2)
+    saved_state = 0
+    if info_rng is not None and info_rng.random() < 0.6:
+        # informational fields: any value is well-formed
+        timestamp = info_rng.getrandbits(32)
+        creator_app = info_rng.choice([b"vpc ", b"win ", b"qem2", b"vbox", b"d2v ", b"\0\0\0\0"])
+        creator_os = info_rng.choice([b"Wi2k", b"Mac ", b"\0\0\0\0"])
+        geometry = info_rng.getrandbits(32)
+        saved_state = info_rng.choice([0, 1])
     f = struct.pack(">8sIIQI4sI4sQQII", b"conectix", features, 0x00010000, data_offset, timestamp, creator_app,
                     0x00050000, creator_os, size if orig_size is None else orig_size, size, geometry, disk_type)
-    body = f + struct.pack(">I", 0) + uid + b"\0" + b"\0" * 427
+    body = f + struct.pack(">I", 0) + uid + bytes([saved_state]) + b"\0" * 427
     assert len(body) == 512
     chk = (~sum(body)) & 0xFFFFFFFF
-    body = f + struct.pack(">I", chk) + uid + b"\0" + b"\0" * 427
+    body = f + struct.pack(">I", chk) + uid + bytes([saved_state]) + b"\0" * 427
     return body[:511] if legacy else body
 
 
@@ -38,7 +46,7 @@ def build_fixed(rng, *, nsectors: int, legacy: bool = False, tag: int = 1, kind:
     sf = SparseFile()
     if nsectors:
         sf.put(0, PatternGen(layer, 0, nsectors))
-    sf.put(size, footer(size, 0xFFFFFFFFFFFFFFFF, 2, uid, legacy=legacy, orig_size=orig_size, temporary=rng.random() < 0.3))
+    sf.put(size, footer(size, 0xFFFFFFFFFFFFFFFF, 2, uid, legacy=legacy, orig_size=orig_size, temporary=rng.random() < 0.3, info_rng=rng))
     meta = {"size": size, "uid": uid.hex(), "legacy": legacy, "metadata_bytes": 512}
     return sf, layer, meta
 
@@ -96,11 +104,13 @@ def build_dynamic(rng, *, block_size: int, nblocks: int, tail_cut_sectors: int =
             pos[j] = top
     uid = uid or bytes(rng.randrange(256) for _ in range(16))
     sf = SparseFile()
-    ft = footer(size, header_off, 3, uid, orig_size=orig_size, temporary=rng.random() < 0.3)
+    ft = footer(size, header_off, 3, uid, orig_size=orig_size, temporary=rng.random() < 0.3, info_rng=rng)
     sf.put(0, ft)
     dh = struct.pack(">8sQQIIII", b"cxsparse", 0xFFFFFFFFFFFFFFFF, table_off, 0x00010000, max_entries, block_size, 0)
     dh += b"\0" * 16 + struct.pack(">II", 0, 0) + b"\0" * 512 + b"\0" * (8 * 24) + b"\0" * 256
     assert len(dh) == 1024
+    # dynamic header checksum (one's complement of the byte sum with the field zeroed), as real writers store it
+    dh = dh[:36] + struct.pack(">I", (~sum(dh)) & 0xFFFFFFFF) + dh[40:]
     sf.put(header_off, dh)
     bat = []
     for i, s in enumerate(states):
